@@ -65,7 +65,11 @@ fn multi_spelling_spec(r: &mut Rng) -> TreeSpec {
     let mut spec = TreeSpec::new("DataModel");
     let n = 1 + r.below(4);
     for i in 0..n {
-        let (class, groups): (&str, Vec<Vec<(&str, VariantType)>>) = match r.below(4) {
+        let (class, groups): (&str, Vec<Vec<(&str, VariantType)>>) = match r.below(6) {
+            // two CANONICAL properties that share one serialized name (a database quirk, listed under C01): whatever the
+            // writer does with them, it must do the same in every construction and process
+            4 => ("Sound", vec![vec![("MaxDistance", VariantType::Float32), ("RollOffMaxDistance", VariantType::Float32), ("xmlRead_MaxDistance_3", VariantType::Float32)]]),
+            5 => ("MaterialService", vec![vec![("Use2022Materials", VariantType::Bool), ("Use2022MaterialsXml", VariantType::Bool)]]),
             0 => ("Part", vec![vec![("Size", VariantType::Vector3), ("size", VariantType::Vector3)]]),
             1 => (
                 "Part",
